@@ -76,6 +76,9 @@ end
 theorem semEqB_iff (sem : Tbl) (a b : Term) : semEqB sem a b = true ↔ SemEq sem a b := by
   simp [semEqB, SemEq, Term.beq_iff_eq]
 
+instance (sem : Tbl) (a b : Term) : Decidable (SemEq sem a b) :=
+  decidable_of_iff _ (semEqB_iff sem a b)
+
 /-! ## reflexivity, symmetry, transitivity -/
 
 theorem eqStruct_refl (tbl : Tbl) (a : Term) : eqStruct tbl a a = true :=
